@@ -80,12 +80,20 @@ def c08a(prog, R):
                 for c in g.calls:
                     if c.is_to(*RAW_ACCESS):
                         raw.append(short(c.sres))
-        ok = m in DEFAULT_OK and not raw
+        # value-agnostic = tabled, or built only from other trait methods (which dispatch to BlobTree's overrides):
+        # no raw internal-entry access and no direct call into the standard tree's read functions
+        direct = []
+        if f is not None:
+            for g in prog.family(f):
+                for c in g.calls:
+                    if c.sres and (c.sres.startswith("tree::Tree::") or c.sres.startswith("table::Table::") or c.sres.startswith("memtable::Memtable::get")):
+                        direct.append(short(c.sres))
+        ok = not raw and (m in DEFAULT_OK or not direct)
         r.check(ok, "AbstractTree::%s|default kept by BlobTree is value-agnostic" % m,
                 "BlobTree inherits the provided method `%s` %s: a key-value separated tree would hand out raw pointers / "
                 "pointer sizes instead of values" % (m, "which reads raw internal entries (%s)" % raw if raw else
-                                                    "which is not in the table of value-agnostic defaults"), "",
-                DEFAULT_OK.get(m, ""))
+                                                    "which calls the standard tree's readers directly (%s)" % direct), "",
+                DEFAULT_OK.get(m, "built only from trait methods (dispatch to the overrides)"))
     # the overridden value-returning methods resolve
     must_resolve = {
         A.tm(A.BLOBTREE, "get"): RESOLVE,
